@@ -59,7 +59,7 @@ theorem step_walkReturn {c : Cfg} {s s' : State} {b : Bool} :
           { s with retErr := some (!s.ff), snap := s.phase,
                    pend := fun m => s.pend m || !s.cancel m } = s') ∨
        (b = false ∧ allTerminal c s.phase = true ∧
-          { s with retErr := some false, snap := s.phase } = s')) := by
+          { s with retErr := some (s.ctx && !s.ff), snap := s.phase } = s')) := by
   simp only [step]
   cases h : s.retErr <;> cases b <;> simp
 
